@@ -292,30 +292,30 @@ def withEab (b : Bool) (s : Subst) (i : Subst → PStr → PStr) (base : Tok →
   | .emptyAttr k => if b then k else k ++ [61] ++ quoteAttr (applySubst s i [])
   | t => base t
 
-theorem effect_void (l : Option Lang) (a : Args) (p : Option PStr) (i : Subst → PStr → PStr) (par : Option PStr) (n : Node) :
-    render (mkFormatter l { a with void_element_close_prefix := p }) i par n
-      = (toks par n).flatMap (withVoid (p.getD []) (interpTok (mkFormatter l a) i)) := by
+theorem effect_void (hd : List PStr) (l : Option Lang) (a : Args) (p : Option PStr) (i : Subst → PStr → PStr) (par : Option PStr) (n : Node) :
+    render (mkFormatterCls hd l { a with void_element_close_prefix := p }) i par n
+      = (toks par n).flatMap (withVoid (p.getD []) (interpTok (mkFormatterCls hd l a) i)) := by
   rw [render_eq_toks]; congr 1; funext t
-  cases t <;> simp [interpTok, withVoid, mkFormatter, substitute, voidClose]
+  cases t <;> simp [interpTok, withVoid, mkFormatterCls, substitute, voidClose]
 
-theorem effect_subst (l : Option Lang) (a : Args) (s : Subst) (i : Subst → PStr → PStr) (par : Option PStr) (n : Node) :
-    render (mkFormatter l { a with entity_substitution := s }) i par n
-      = (toks par n).flatMap (withSubst s i (mkFormatter l a).cdata_containing_tags a.empty_attributes_are_booleans
-          (interpTok (mkFormatter l a) i)) := by
+theorem effect_subst (hd : List PStr) (l : Option Lang) (a : Args) (s : Subst) (i : Subst → PStr → PStr) (par : Option PStr) (n : Node) :
+    render (mkFormatterCls hd l { a with entity_substitution := s }) i par n
+      = (toks par n).flatMap (withSubst s i (mkFormatterCls hd l a).cdata_containing_tags a.empty_attributes_are_booleans
+          (interpTok (mkFormatterCls hd l a) i)) := by
   rw [render_eq_toks]; congr 1; funext t
-  cases t <;> simp [interpTok, withSubst, substitute_eq, mkFormatter, voidClose] <;> rfl
+  cases t <;> simp [interpTok, withSubst, substitute_eq, mkFormatterCls, voidClose] <;> rfl
 
-theorem effect_cdata (l : Option Lang) (a : Args) (cd : Option (List PStr)) (i : Subst → PStr → PStr) (par : Option PStr) (n : Node) :
-    render (mkFormatter l { a with cdata_containing_tags := cd }) i par n
-      = (toks par n).flatMap (withCdata (default_ (l.getD .html) cd) a.entity_substitution i (interpTok (mkFormatter l a) i)) := by
+theorem effect_cdata (hd : List PStr) (l : Option Lang) (a : Args) (cd : Option (List PStr)) (i : Subst → PStr → PStr) (par : Option PStr) (n : Node) :
+    render (mkFormatterCls hd l { a with cdata_containing_tags := cd }) i par n
+      = (toks par n).flatMap (withCdata (defaultCls hd (l.getD .html) cd) a.entity_substitution i (interpTok (mkFormatterCls hd l a) i)) := by
   rw [render_eq_toks]; congr 1; funext t
-  cases t <;> simp [interpTok, withCdata, substitute_eq, mkFormatter, voidClose, inCdata]
+  cases t <;> simp [interpTok, withCdata, substitute_eq, mkFormatterCls, voidClose, inCdata]
 
-theorem effect_eab (l : Option Lang) (a : Args) (b : Bool) (i : Subst → PStr → PStr) (par : Option PStr) (n : Node) :
-    render (mkFormatter l { a with empty_attributes_are_booleans := b }) i par n
-      = (toks par n).flatMap (withEab b a.entity_substitution i (interpTok (mkFormatter l a) i)) := by
+theorem effect_eab (hd : List PStr) (l : Option Lang) (a : Args) (b : Bool) (i : Subst → PStr → PStr) (par : Option PStr) (n : Node) :
+    render (mkFormatterCls hd l { a with empty_attributes_are_booleans := b }) i par n
+      = (toks par n).flatMap (withEab b a.entity_substitution i (interpTok (mkFormatterCls hd l a) i)) := by
   rw [render_eq_toks]; congr 1; funext t
-  cases t <;> simp [interpTok, withEab, substitute_eq, mkFormatter, voidClose, inCdata]
+  cases t <;> simp [interpTok, withEab, substitute_eq, mkFormatterCls, voidClose, inCdata]
 
 /-! `indent` -/
 
@@ -352,14 +352,14 @@ theorem prettyItemsL_indent (c : Cfg) (u : PStr) (i : Subst → PStr → PStr) (
   | cons k ks => simp only [prettyItemsL, prettyItems_indent c u i lv lit par k, prettyItemsL_indent c u i lv lit par ks]
 end
 
-theorem effect_indent (l : Option Lang) (a : Args) (x : IndentArg) (i : Subst → PStr → PStr) (lv : Nat) (par : Option PStr) (n : Node) :
-    pretty (mkFormatter l { a with indent := x }) i lv par n
-        = fillInd (normIndent x) (prettyItems (mkFormatter l a) i lv false par n)
-      ∧ render (mkFormatter l { a with indent := x }) i par n = render (mkFormatter l a) i par n := by
+theorem effect_indent (hd : List PStr) (l : Option Lang) (a : Args) (x : IndentArg) (i : Subst → PStr → PStr) (lv : Nat) (par : Option PStr) (n : Node) :
+    pretty (mkFormatterCls hd l { a with indent := x }) i lv par n
+        = fillInd (normIndent x) (prettyItems (mkFormatterCls hd l a) i lv false par n)
+      ∧ render (mkFormatterCls hd l { a with indent := x }) i par n = render (mkFormatterCls hd l a) i par n := by
   constructor
   · unfold pretty
-    exact congrArg _ (prettyItems_indent (mkFormatter l a) (normIndent x) i lv false par n)
-  · exact render_indent (mkFormatter l a) (normIndent x) i par n
+    exact congrArg _ (prettyItems_indent (mkFormatterCls hd l a) (normIndent x) i lv false par n)
+  · exact render_indent (mkFormatterCls hd l a) (normIndent x) i par n
 
 
 /-! ### scope of a custom substitution function -/
